@@ -309,6 +309,35 @@ func genBatchSeq(r *rng, thorough bool, emit func(FlowScenario)) {
 			}
 		}
 	}
+	// large batches (far beyond the pool's queue): sequential, one worker, and wide in continue mode
+	sizes := []int{300}
+	if thorough {
+		sizes = []int{300, 1500}
+	}
+	for _, n := range sizes {
+		for _, conc := range []int{0, 1, 8} {
+			for _, stop := range []bool{false, true} {
+				if conc >= 2 && stop {
+					continue
+				}
+				t.next, t.errN = r.intn(30), r.intn(20)
+				cfg := BatchCfg{Budget: 2, Fb: "pass", Conc: conc, Stop: stop, ExecS: "res", HasPost: true, Shape: "results", Build: "builder"}
+				bs := BatchScript{N: 0, V: 0, Post: "=done"}
+				bs.Prep = batchItemsPrep(t, "results", n)
+				f := n/2 + r.intn(n/4)
+				for i := 0; i < n; i++ {
+					var m uint = 7
+					if i == f || (i > f && r.chance(3)) {
+						m = 0
+					} else if r.chance(5) {
+						m = 6 // fails once, then succeeds
+					}
+					bs.Items = append(bs.Items, t.itemScript(m, 3, false, "any"))
+				}
+				emit(mk(cfg, bs))
+			}
+		}
+	}
 	// single value / nil payloads and the empty batch (also with post returning the empty action)
 	for _, shape := range []string{"single", "nil", "results", "anys"} {
 		for _, conc := range []int{0, 1, 3} {
